@@ -45,8 +45,10 @@ structure ONet where
   wraps : Nat := 0
   /-- no telegram was corrupted or dropped in this case so far (only clean crashes / restarts) -/
   crashOnly : Bool := true
-  /-- token wrap-arounds since every online station has been a ring member (reset whenever one is not) -/
+  /-- consecutive token rotations in which EVERY online station passed the token at least once -/
   wrapsAllIn : Nat := 0
+  /-- stations that transmitted a token since the last wrap-around -/
+  passedSince : List Nat := []
 
 def bitsT (o : ONet) (b : Nat) : Int := (bitsToTime o.rate b : Nat)
 
@@ -91,7 +93,7 @@ def oracleNet (want : String) (o : ONet) (op obs : String) : ONet × Option (Str
   | ["net.online", i, now] =>
     let i := i.toNat!
     let f : NStation → NStation := fun s => { s with online := true, inring := false, las := [], fsm := "Offline" }
-    ({ o with sts := o.sts.modify i f, lastChange := now.toInt!, agreed := false, wraps := 0, wrapsAllIn := 0 }, none)
+    ({ o with sts := o.sts.modify i f, lastChange := now.toInt!, agreed := false, wraps := 0, wrapsAllIn := 0, passedSince := [] }, none)
   | ["net.offline", i, now] =>
     let i := i.toNat!
     let f : NStation → NStation := fun s => { s with online := false, inring := false }
@@ -173,10 +175,10 @@ def oracleNet (want : String) (o : ONet) (op obs : String) : ONet × Option (Str
             some ("C06", s!"ring {S} not re-established within the recovery bound ({convBound o1} us after the last disturbance)")
           else if ¬ o2.agreed ∧ o.wraps > rotBound o1 then
             some ("C06", s!"ring {S} not re-established after {o.wraps} token rotations since the last disturbance (bound {rotBound o1} rotations)")
-          else if ¬ o2.agreed ∧ o.crashOnly ∧ o.wrapsAllIn > 12 then
-            -- after clean crashes only, with every online station a ring member, the views settle within a few rotations:
-            -- the predecessor drops the silent successor after three passes and everybody witnesses the pass that skips it
-            some ("C06", s!"every online station is a ring member but the views still disagree on {S} after {o.wrapsAllIn} token rotations (station #{sNew.addr}: LAS={sNew.las} NS={sNew.ns} PS={sNew.ps})")
+          else if ¬ o2.agreed ∧ o.crashOnly ∧ o.wrapsAllIn > 8 then
+            -- after clean crashes only: once every online station takes part in the rotation (passes the token in every
+            -- rotation) everybody witnesses everybody's passes, so the views settle within a few rotations
+            some ("C06", s!"every online station has passed the token in each of the last {o.wrapsAllIn} rotations but the views still disagree on {S} (station #{sNew.addr}: LAS={sNew.las} NS={sNew.ns} PS={sNew.ps})")
           else none
         else none
       -- ------------------------------------------------------------ C13 rotation bound
@@ -195,9 +197,12 @@ def oracleNet (want : String) (o : ONet) (op obs : String) : ONet × Option (Str
       let isWrap : Bool := match r.tx with
         | some b => (match isTokenFrame b with | some (da, sa) => decide (da ≤ sa) && decide (now > o.lastChange) | none => false)
         | none => false
-      let allIn : Bool := (o1.sts.filter (·.online)).all (·.inring)
+      let isTok : Bool := match r.tx with | some b => (isTokenFrame b).isSome | none => false
+      let passed := if isTok ∧ ¬ o2.passedSince.contains sOld.addr then sOld.addr :: o2.passedSince else o2.passedSince
+      let everybody : Bool := (o1.sts.filter (·.online)).all fun s => passed.contains s.addr
       let o2 : ONet := { o2 with wraps := if isWrap then o2.wraps + 1 else o2.wraps,
-                                 wrapsAllIn := if ¬ allIn then 0 else if isWrap then o2.wrapsAllIn + 1 else o2.wrapsAllIn }
+                                 passedSince := if isWrap then [] else passed,
+                                 wrapsAllIn := if isWrap then (if everybody then o2.wrapsAllIn + 1 else 0) else o2.wrapsAllIn }
       let o3 : ONet := match r.tx with
         | some b => { o2 with lastTxEnd := some (now + ((11 * b.length * 1000000 + o.rate - 1) / o.rate : Nat)), lastTxSender := i,
                               lastTxBytes := b, prevTx := o2.prevTx.set i b, tainted := o2.tainted || isK3 }
